@@ -7,3 +7,6 @@ NOT_APPLICABLE = {
     "input enumeration, which are other technique families (DESIGN.md section 6)",
 }
 
+
+# Properties whose module has been reviewed and armed by the lead (only these are claimed in MANIFEST.json).
+ARMED = ["C03", "C07"]
